@@ -78,15 +78,27 @@ func (x *Exec) regionForElem(t types.Type) (string, Sort) {
 	c := x.C
 	if a, ok := t.Underlying().(*types.Array); ok {
 		es := c.SortOf(a.Elem())
+		x.noteRegionType("E:"+string(es), a.Elem())
 		return "E:" + string(es), SArr(SRef, SArr(SIdx, es))
 	}
 	s := c.SortOf(t)
+	x.noteRegionType("H:"+string(s), t)
 	return "H:" + string(s), SArr(SRef, s)
 }
 
 func (x *Exec) elemRegion(elem types.Type) (string, Sort) {
 	es := x.C.SortOf(elem)
+	x.noteRegionType("E:"+string(es), elem)
 	return "E:" + string(es), SArr(SRef, SArr(SIdx, es))
+}
+
+// noteRegionType remembers the Go type behind a heap region, so that a second pass (see VerifyFunction) can declare the
+// sorts of the regions it knows from the first pass before anything refers to them.
+func (x *Exec) noteRegionType(region string, t types.Type) {
+	if x.regionTypes == nil {
+		x.regionTypes = map[string]types.Type{}
+	}
+	x.regionTypes[region] = t
 }
 
 // heapGet returns the current term of a region; regions never touched in this state have the default of its epoch.
